@@ -214,3 +214,23 @@ func (vc *VC) isLocalSliceValue(v ssa.Value, depth int) bool {
 	}
 	return false
 }
+
+// nilAtLoopEntry: a loop-header phi whose every non-back edge is the nil constant.
+func (vc *VC) nilAtLoopEntry(ph *ssa.Phi) bool {
+	hb := ph.Block()
+	if _, isLoop := vc.loops[hb.Index]; !isLoop {
+		return false
+	}
+	n := 0
+	for i, p := range hb.Preds {
+		if vc.isBack[[2]int{p.Index, hb.Index}] {
+			continue
+		}
+		c, ok := ph.Edges[i].(*ssa.Const)
+		if !ok || c.Value != nil {
+			return false
+		}
+		n++
+	}
+	return n > 0
+}
